@@ -465,7 +465,7 @@ def run(ctx):
             name = 'h%d' % k
             text = 'Definition %s ' % name + text.split(' ', 2)[2]
             defs[k] = (name, text)
-            ncalls += len(H)
+            ncalls += len(H) + (1 if wk == EXTENDED else 0)      # the model's FreshExtended row
             cl = '%s/len%d/%s' % (WORLDS[wk][0].__name__.strip('_'), len(H),
                                   ','.join(sorted({c[2][0] if c[0] in ('call', 'fail') else c[0] for c in H}))[:80])
             classes[cl] = classes.get(cl, 0) + 1
